@@ -107,9 +107,45 @@ def run(ctx, rep):
         check_raw_flags(crate, rep, cfg)
 
 
+def _bool_sources(body, local, projs, depth=0, seen=None):
+    """where the bool stored in `local`(.projs) comes from: a set of (block, "0"|"1"|"?") — constants with the block that assigns them,
+    followed through copies and tuple construction / destructuring"""
+    seen = seen if seen is not None else set()
+    key = (local, tuple(projs))
+    if key in seen or depth > 12:
+        return set()
+    seen.add(key)
+    out = set()
+    for (b3, i3, dp, rv) in body.defs.get(local, []):
+        if dp:
+            continue
+        if rv["k"] == "use":
+            op = rv["op"]
+            if op["k"] == "const":
+                out.add((b3, str(op.get("v")) if not projs else "?"))
+            elif op["k"] in ("copy", "move"):
+                pp = [p for p in pl_projs(op["pl"]) if p.startswith(".")]
+                out |= _bool_sources(body, op["pl"]["l"], pp + list(projs), depth + 1, seen)
+            else:
+                out.add((b3, "?"))
+        elif rv["k"] == "agg" and rv.get("ak") == "tuple" and projs and projs[0][1:].isdigit() and int(projs[0][1:]) < len(rv["ops"]):
+            op = rv["ops"][int(projs[0][1:])]
+            rest = list(projs[1:])
+            if op["k"] == "const":
+                out.add((b3, str(op.get("v")) if not rest else "?"))
+            elif op["k"] in ("copy", "move"):
+                pp = [p for p in pl_projs(op["pl"]) if p.startswith(".")]
+                out |= _bool_sources(body, op["pl"]["l"], pp + rest, depth + 1, seen)
+            else:
+                out.add((b3, "?"))
+        else:
+            out.add((b3, "?"))
+    return out
+
+
 def skip_tag_fields(crate):
-    """summary of skip_tag's returned tuple: {field index: 'after'|'before'|'other'} — a bool field is 'after' when the named flag it copies
-    is set to true only after the tag NAME has been stripped (the `-` next to the closing delimiter), 'before' when only before it."""
+    """summary of skip_tag's returned tuple: {field index: 'after'|'before'|'other'} — a bool field is 'after' when every `true` that can
+    flow into it is produced after the tag NAME has been stripped (the `-` next to the closing delimiter), 'before' when only before it."""
     b = crate.one("parsing::lexer::skip_tag")
     tr = Tracer(b)
     names = [bb for bb, t in b.calls() if callee_def(t).endswith("<impl str>::strip_prefix") and len(t["args"]) > 1 and
@@ -118,34 +154,28 @@ def skip_tag_fields(crate):
         raise AnchorMissing("skip_tag: strip_prefix(name)")
     nb = names[0]
     after_name = b.reach_from(nb)
-    ef = EdgeFacts(b, crate)
-    out = {}
-    tuples = [(bb, idx, st) for bb, idx, st in b.stmts() if idx != "t" and st.get("k") == "assign" and st["rv"]["k"] == "agg" and st["rv"].get("ak") == "tuple"]
+    # the tuple inside the returned Some(..)
+    tuples = set()
+    for l in tr.place({"l": 0, "p": []}):
+        if l.kind == "agg" and l.detail[2] == "Some":
+            for x in tr.operand(b.blocks[l.detail[3]]["s"][l.detail[4]]["rv"]["ops"][0]):
+                if x.kind == "agg" and x.detail[0] == "tuple" and not x.projs:
+                    tuples.add((x.detail[3], x.detail[4]))
     if len(tuples) != 1:
         raise AnchorMissing("skip_tag: returned tuple")
-    for k, op in enumerate(tuples[0][2]["rv"]["ops"]):
+    tb, ti = next(iter(tuples))
+    out = {}
+    for k, op in enumerate(b.blocks[tb]["s"][ti]["rv"]["ops"]):
         cls = "other"
-        loc = None
-        cur = op
-        for _ in range(4):
-            if cur["k"] in ("copy", "move") and not cur["pl"]["p"]:
-                l = cur["pl"]["l"]
-                if b.local_name(l):
-                    loc = l
-                    break
-                d = ef.single_def(l)
-                if d is None or d[3]["k"] != "use":
-                    break
-                cur = d[3]["op"]
-            else:
-                break
-        if loc is not None and b.local_ty(loc) == "bool":
-            sets = [bb for bb, idx, st in b.stmts() if idx != "t" and st.get("k") == "assign" and not st["pl"]["p"] and st["pl"]["l"] == loc and
-                    not (st["rv"]["k"] == "use" and st["rv"]["op"]["k"] == "const" and str(st["rv"]["op"].get("v")) == "0")]
-            if sets and all(x in after_name and x != nb for x in sets):
-                cls = "after"
-            elif sets and all(nb in b.reach_from(x) and x not in after_name for x in sets):
-                cls = "before"
+        if op["k"] in ("copy", "move") and b.local_ty(op["pl"]["l"]) == "bool" or (op["k"] == "const" and op.get("ty") == "bool"):
+            srcs = {(tb, str(op.get("v")))} if op["k"] == "const" else \
+                _bool_sources(b, op["pl"]["l"], [p for p in pl_projs(op["pl"]) if p.startswith(".")])
+            trues = {x for x, v in srcs if v == "1"}
+            if srcs and not any(v == "?" for _, v in srcs) and trues:
+                if all(x in after_name and x != nb for x in trues):
+                    cls = "after"
+                elif all(nb in b.reach_from(x) and x not in after_name for x in trues):
+                    cls = "before"
         out[k] = cls
     return out, b
 
